@@ -608,6 +608,8 @@ PROPS["C05"] = {
         leg("pfor-1d-deep", "c05_pfor", (4, 4), {"nmax": 12, "gmax": 3, "pmax": 3}, flags=(), what="n<=12 at four deviations", tiers=("thorough",), weight=2.0),
         leg("pfor-1d-nested", "c05_pfor", (2, 3), {"nmax": 24, "gmax": 4, "pmax": 3, "nested": 1}, flags=(), what="n<=24, g<=4: in addition every body may re-enter the dispatcher on its own worker (nested wait inside the body)", weight=2.0),
         leg("other-spaces-nested", "c05_more", (1, 2), {"nested": 1}, flags=(), what="other iteration spaces with bodies that may re-enter the dispatcher"),
+        leg("range-pool-seq9", "c05_rangevec", (0, 0), {"depth": 9}, flags=(), what="the partitioners' range pool (range_vector<Range,8>: ring indices, relative depths) against a deque model: every sequence of length 1..9 over split_to_fill(3|8|16) / pop_back / pop_front, two ranges", tiers=("quick",)),
+        leg("range-pool-seq11", "c05_rangevec", (0, 0), {"depth": 11}, flags=(), what="same, every sequence of length 1..11", tiers=("thorough",), weight=2.0),
         leg("other-spaces", "c05_more", (2, 3), {}, flags=(), what="2d/3d/nd, huge ranges, strided loops, parallel_for_each, parallel_invoke, indivisible range", weight=3.0),
         leg("rt-pfor-simple", "c01_rt", (2, 3), {"kind": "pfor"}, flags=("-fp", "-hb"), what="real scheduler: parallel_for over 4 elements, simple_partitioner"),
         leg("rt-pfor-auto", "c01_rt", (2, 3), {"kind": "pfor_auto"}, flags=("-fp", "-hb"), what="real scheduler: parallel_for(0,5), auto_partitioner"),
